@@ -366,7 +366,7 @@ with parseContent (f : nat) (acc : list node) (p : pos) {struct f} : res (list n
     end
   end.
 
-(* ---- Xml::Private::parse (Xml.cpp:302-332, after fixes/C16/03) ----------------------------- *)
+(* ---- Xml::Private::parse (Xml.cpp:302-338, after fixes/C16/03 and 08) ----------------------------- *)
 
 Definition pi_stop (c : Z) : bool := (c =? 13) || (c =? 10) || (c =? 63).
 
@@ -386,9 +386,19 @@ Fixpoint piBody (f : nat) (start : pos) (p : pos) : res pos :=
           match r3 with
           | [] => Oob
           | e1 :: r4 => if e1 =? 62 then Ok (adv p (zlen pre + 2) r4)
-                        else do q <- skipSpace (adv p (zlen pre + 1) r3); piBody f' start q
+                        else piBody f' start (adv p (zlen pre + 1) r3)
           end
-        else do q <- skipSpace (adv p (zlen pre) r2); piBody f' start q
+        else
+          (* a line break inside the instruction is counted here (repair 08: skipSpace would also step over
+             a comment opener in the body, up to the next comment end) *)
+          let o1 := off p + zlen pre in
+          if e =? 13 then
+            match r3 with
+            | [] => Oob
+            | e1 :: r4 => if e1 =? 10 then piBody f' start (mkPos r4 (o1 + 2) (line p + 1) (o1 + 2))
+                          else piBody f' start (mkPos r3 (o1 + 1) (line p + 1) (o1 + 1))
+            end
+          else piBody f' start (mkPos r3 (o1 + 1) (line p + 1) (o1 + 1))
       end
     end
   end.
